@@ -31,9 +31,15 @@ fn main() {
     ck.assume("float tolerance rtol 1e-4 / atol 1e-5 on |expected|; for reductions, matmul, conv, pooling averages, normalisations, linear resize the rtol term is scaled by the sum of absolute values of the terms (condition-aware); integer/bool results exact, except quantised values whose pre-rounding quotient is within 1e-3 of a rounding tie that is not exactly representable (±1 accepted)");
     ck.assume("settings rten documents as unsupported (load-time 'unsupported attribute/value' or run-time UnsupportedValue) are outside the domain: ArgMax/ArgMin select_last_index=1, Pad axes input and non-constant padding beyond the last two dims, pooling dilations != 1, Resize cubic/antialias/tf_crop_and_resize, TopK sorted=0, blocked quantisation");
     ck.set_threads(12);
+    // the reference operators must reproduce the worked examples of the ONNX operator documentation
+    let selftest = vc_ref::selftest::run();
+    if !selftest.is_empty() {
+        ck.inconclusive(format!("reference self-test failed ({} of {} documentation vectors): {}", selftest.len(), vc_ref::selftest::count(), selftest[0]));
+    }
+    ck.extra("reference_selftest_vectors", vcore::serde_json::json!(vc_ref::selftest::count()));
     for (family, ops) in vc_ref::families() {
         let n_ops = ops.len() as u64;
-        let per_op = ck.pick(150, 4500);
+        let per_op = ck.pick(1200, 36_000);
         let fam_name: &'static str = family;
         drop(ops);
         ck.prop(
